@@ -114,6 +114,27 @@ func check(c *fw.Ctx, cs Case, src string, st *bcv.Stats, count bool) {
 		}
 		c.Count("accepted_"+cs.Kind, 1)
 	}
+	// dynamic side for the constructor families: the compiled code must build the table it describes
+	if want, ok := expectedLen(cs); ok {
+		L := lua.NewState()
+		var got lua.LValue = lua.LNil
+		o := gl.Protect(func() error {
+			fn := L.NewFunctionFromProto(p)
+			L.Push(fn)
+			if err := L.PCall(0, 1, nil); err != nil {
+				return err
+			}
+			got = L.Get(-1)
+			return nil
+		})
+		L.Close()
+		if count {
+			c.Count("constructors_executed", 1)
+		}
+		if o.GoPanic != nil || o.Err != nil || got != lua.LNumber(want) {
+			c.Violation(fmt.Sprintf("constructor with %d items (variant %d) ran to #t = %v (panic %v, error %v), want %d", cs.N, cs.M, got, o.GoPanic, o.Err, want), store)
+		}
+	}
 	seen := map[string]bool{}
 	for _, pr := range probs {
 		if seen[pr.Class] {
@@ -127,6 +148,23 @@ func check(c *fw.Ctx, cs Case, src string, st *bcv.Stats, count bool) {
 		key = fmt.Sprintf("%s/%d/%d/%d", cs.Family, cs.N, cs.M, len(src))
 	}
 	c.End(local.Protos >= 2 || local.Instructions >= 30, key)
+}
+
+func expectedLen(cs Case) (int, bool) {
+	switch cs.Family {
+	case "constructor-no-locals":
+		return cs.N, true
+	case "constructor":
+		switch cs.M {
+		case 0, 4:
+			return cs.N, true
+		case 1:
+			return 0, true
+		case 3, 5:
+			return cs.N + 3, true
+		}
+	}
+	return 0, false
 }
 
 func corpusFiles() []string {
@@ -242,6 +280,12 @@ func adversarial(quick bool) []Case {
 	}
 	add("longjump", 40000, 0)
 	add("longjump", 40000, 1)
+	add("longjump", 40000, 2)
+	add("longjump", 140000, 2)
+	add("many-labels", 44000, 0)
+	for _, n := range []int{25550, 25551, 25600, 26000} {
+		add("constructor-no-locals", n, 0)
+	}
 	for _, n := range []int{1, 10, 50, 100, 150, 190, 200} {
 		for m := 0; m < 9; m++ {
 			add("nesting", n, m)
@@ -253,6 +297,18 @@ func adversarial(quick bool) []Case {
 	}
 	for m := 0; m < 12; m++ {
 		add("goto", m, 0)
+	}
+	for _, n := range []int{100, 199, 250, 253, 254, 255, 256, 257, 300} {
+		for m := 0; m < 4; m++ {
+			add("many-temporaries", n, m)
+		}
+	}
+	for _, n := range []int{300, 520, 600, 800, 1100, 1300} {
+		add("constants-methods", n, 0)
+		add("constants-methods", n, 1)
+	}
+	for _, n := range []int{100, 127, 128, 129, 200} {
+		add("upvalues-passthrough", n, 0)
 	}
 	return out
 }
@@ -335,15 +391,34 @@ func buildAdv(fam string, n, m int) string {
 		}
 		sb.WriteString("}\nreturn #t, t[1]")
 	case "longjump":
-		if m == 0 {
+		switch m {
+		case 0:
 			sb.WriteString("local x = 0\nwhile x < 1 do\n")
-		} else {
+		case 1:
 			sb.WriteString("local x = 0\nif x > 1 then\n")
+		default:
+			sb.WriteString("local x = 0\nrepeat\n")
 		}
 		for i := 0; i < n; i++ {
 			sb.WriteString("x = x + 1\n")
 		}
-		sb.WriteString("end\nreturn x")
+		if m == 2 {
+			sb.WriteString("until x > 0\nreturn x")
+		} else {
+			sb.WriteString("end\nreturn x")
+		}
+	case "many-labels":
+		sb.WriteString("local x = 0\n")
+		for i := 0; i < n; i++ {
+			sb.WriteString("if x then x = 1 end\n")
+		}
+		sb.WriteString("return x")
+	case "constructor-no-locals":
+		sb.WriteString("T = {}\nT.x = {")
+		for i := 0; i < n; i++ {
+			fmt.Fprintf(&sb, "%d,", i)
+		}
+		sb.WriteString("}\nreturn #T.x")
 	case "nesting":
 		open := []string{"do ", "if x then ", "while x do ", "for i = 1, 2 do ", "repeat ", "x = function() ", "x = (", "x = {", "x = -"}[m]
 		clos := []string{" end", " end", " end", " end", " until x", " end", ")", "}", ""}[m]
@@ -387,6 +462,65 @@ func buildAdv(fam string, n, m int) string {
 		for i := 150; i < n; i += 150 {
 			sb.WriteString("\nend")
 		}
+	case "many-temporaries":
+		// one frame that needs about n registers through temporaries only
+		sb.WriteString("local function f(...) return select('#', ...) end\nlocal a = 1\n")
+		list := func(sep string, item func(i int) string) {
+			for i := 0; i < n; i++ {
+				if i > 0 {
+					sb.WriteString(sep)
+				}
+				sb.WriteString(item(i))
+			}
+		}
+		switch m {
+		case 0:
+			sb.WriteString("return f(")
+			list(", ", func(i int) string { return fmt.Sprintf("%d", i) })
+			sb.WriteString(")")
+		case 1:
+			sb.WriteString("return ")
+			list(", ", func(i int) string { return "a" })
+		case 2:
+			sb.WriteString("return ")
+			list(" .. ", func(i int) string { return "a" })
+		default:
+			sb.WriteString("local t = {f(")
+			list(", ", func(i int) string { return "a + " + fmt.Sprint(i) })
+			sb.WriteString(")}\nreturn t")
+		}
+	case "constants-methods":
+		// method definitions and calls whose names land on every constant index up to n
+		sb.WriteString("local o = {}\nlocal acc = 0\n")
+		for i := 0; i < n; i++ {
+			switch (i + m) % 3 {
+			case 0:
+				fmt.Fprintf(&sb, "function o:m%d() return %d.5 end\n", i, i)
+			case 1:
+				fmt.Fprintf(&sb, "acc = acc + %d.25\n", i)
+			default:
+				fmt.Fprintf(&sb, "if o.m%d then acc = acc + o:m%d() + (\"s%d\"):len() end\n", i-2, i-2, i)
+			}
+		}
+		sb.WriteString("return acc")
+	case "upvalues-passthrough":
+		// a middle function gathers 2n upvalues only through closures nested inside it
+		for i := 0; i < n; i++ {
+			fmt.Fprintf(&sb, "local a%d = %d\n", i, i)
+		}
+		sb.WriteString("return function()\n")
+		for i := 0; i < n; i++ {
+			fmt.Fprintf(&sb, "local b%d = %d\n", i, i)
+		}
+		sb.WriteString("return function()\nlocal f1 = function() return a0")
+		for i := 1; i < n; i++ {
+			fmt.Fprintf(&sb, " + a%d", i)
+		}
+		sb.WriteString(" end\nlocal f2 = function() return b0")
+		for i := 1; i < n; i++ {
+			fmt.Fprintf(&sb, " + b%d", i)
+		}
+		sb.WriteString(" end\nreturn f1, f2\nend\nend")
 	case "goto":
 		shapes := []string{
 			"do goto l1 ::l1:: end",
